@@ -352,7 +352,7 @@ class Agent(dbus.service.Object):
                 age = max(0, now_dtntime - create_dtntime)
                 ctr.add_block(CanonicalBlock() / BundleAgeBlock(age=age))
 
-            self.send_bundle(ctr)
+            self.send_bundle(ctr, as_source=False)
             # Status after send 'success'
             self._logger.info('Forwarded bundle %s: %s', ctr.log_name())
             ctr.record_action('forward')
@@ -389,15 +389,19 @@ class Agent(dbus.service.Object):
             td = datetime.timedelta(hours=1)
             pri_blk.lifetime = td.total_seconds() * 1e3 + td.microseconds // 1e3
 
-    def send_bundle(self, ctr: BundleContainer):
+    def send_bundle(self, ctr: BundleContainer, as_source: bool = True):
         ''' Perform agent handling to send a bundle.
         Part of this is to update final CRCs on all blocks and
         assign block numbers.
 
         :param ctr: The bundle container to send.
+        :param as_source: False for a bundle received from another node
+            (or a fragment of any bundle), whose primary block is complete
+            and is sent as it is.
         '''
         ctr.reload()
-        self._apply_primary(ctr)
+        if as_source:
+            self._apply_primary(ctr)
         ctr.fix_block_num()
         ctr.bundle.fill_fields()
 
